@@ -354,6 +354,25 @@ class Cli:
             self.v("unexpected_exit_code", f"isla {argv[0]} exited with {code}", op_index)
         return code, out.getvalue(), err.getvalue(), None
 
+    def frozen_work(self):
+        """Waiting for a real child process takes a number of Python-level steps that
+        depends on pipe timing: the work counter (and with it the virtual clock) is frozen
+        meanwhile, so that the run stays a pure function of its plan."""
+        import contextlib
+
+        w = self.world.work
+
+        @contextlib.contextmanager
+        def cm():
+            saved = (w.count, w.cap, w.tripped, w.next_raise)
+            w.cap = None
+            try:
+                yield
+            finally:
+                w.count, w.cap, w.tripped, w.next_raise = saved
+
+        return cm()
+
     def validate_stub(self, argv: List[str], code: int, out: str, op_index: int):
         """The process boundary is stubbed (in-process `main`).  For a deterministic
         sample of the read-only commands of fault-free sessions the same command line is
@@ -374,11 +393,12 @@ class Cli:
             env["PYTHONPATH"] = alt
         else:
             env.pop("PYTHONPATH", None)
-        try:
-            p = subprocess.run([sys.executable, "-W", "ignore", "-m", "isla"] + argv, capture_output=True, timeout=90, env=env, cwd=os.getcwd())
-        except Exception:
-            self.bump("stub_validation_subprocess_lost")
-            return
+        with self.frozen_work():
+            try:
+                p = subprocess.run([sys.executable, "-W", "ignore", "-m", "isla"] + argv, capture_output=True, timeout=90, env=env, cwd=os.getcwd())
+            except Exception:
+                self.bump("stub_validation_subprocess_lost")
+                return
         same = p.returncode == code and p.stdout.decode("utf-8", "replace") == out
         self.bump("stub_validation_agree" if same else "stub_validation_disagree")
         if not same:
@@ -647,7 +667,19 @@ class Cli:
             argv += ["-f", str(rng.choice([1, 2, 5])), "-s", str(rng.choice([1, 2, 5]))]
         if rng.random() < 0.3:
             argv += ["-t", str(rng.choice([1, 3, 10]))]
-        code, out, err, exc = self.run(argv, op_index)
+        import subprocess
+
+        real_run = subprocess.run
+
+        def run_target(*a, **k):
+            with self.frozen_work():
+                return real_run(*a, **k)
+
+        subprocess.run = run_target  # the test target is a real child process
+        try:
+            code, out, err, exc = self.run(argv, op_index)
+        finally:
+            subprocess.run = real_run
         if code is None:
             return
         # C19 states nothing about fuzz beyond "no command ends with an uncaught
